@@ -7,6 +7,7 @@ import Cirbo.Model.Codec
 import Cirbo.Model.Func
 import Cirbo.Model.Bench
 import Driver.Steps
+import Cirbo.Model.Miter
 /-! `cirbo_model`: one JSON request per input line, one JSON response per output line. -/
 open Lean Cirbo Driver
 
@@ -199,6 +200,12 @@ def handle (j : Json) : Except String Json := do
     let c ← getCircuit j
     let steps ← (← j.getObjVal? "steps").getArr?
     pure (ok (Json.arr (← runSteps c steps.toList).toArray))
+  | "build_miter" => do
+    let l ← getCircuit j "left"
+    let r ← getCircuit j "right"
+    let ln := match j.getObjVal? "left_name" with | .ok (Json.str s) => s | _ => "circuit1"
+    let rn := match j.getObjVal? "right_name" with | .ok (Json.str s) => s | _ => "circuit2"
+    pure (ofExcept jCircuit (buildMiter l r ln rn))
   | "optable_issues" => pure (ok (jStrs opTableIssues))
   | "check_wf" => do
     let c ← getCircuit j
